@@ -61,7 +61,7 @@ Definition commit (C : pcom) (raw : Z) (ms : list Z) : option (Z * Z) :=
 (* Verify(c, r, m) *)
 Definition pverify (C : pcom) (c r : Z) (ms : list Z) : verdict :=
   if (length (pc_g C) <? length ms)%nat then Throw
-  else if pc_q C <=? r then Reject
+  else if (r <? 0) || (pc_q C <=? r) then Reject        (* 0 <= r < q  (fix 25cc964) *)
   else match h_pow false C r with
        | None => Throw
        | Some c0 =>
